@@ -251,3 +251,59 @@ Proof.
   pose proof (steps_inv ps ps [] pinit [] st1 os Hc ltac:(intros p []) ltac:(auto) HI H) as (_ & _ & _ & _ & Hfun).
   cbn [app] in Hfun. exact Hfun.
 Qed.
+
+(* ---- the public API around Produce: reading (and resetting) the statistics is part of a producer's history ----
+   Producer.GetAndResetStats zeroes ProducerStats.StreamProducersCreated, a counter incremented where a stream producer
+   is created — the same place where Producer.nextSchemaId is consumed.  The schema ids must not depend on it. *)
+Inductive call := Batch (ps : list (N * N)) | ResetStats.
+Record astate := { core : pstate; created_stat : N }.
+Definition ainit : astate := {| core := pinit; created_stat := 0 |}.
+
+(* [from_stat]: the seeded variant — schema ids are allocated from the statistic *)
+Definition acall (from_stat : bool) (a : astate) (c : call) : astate * option (N * list (N * N)) :=
+  match c with
+  | ResetStats => ({| core := core a; created_stat := 0 |}, None)
+  | Batch ps =>
+      let st := if from_stat
+                then {| streams := streams (core a); next_sid := created_stat a; batch_id := batch_id (core a) |}
+                else core a in
+      let '(st1, o) := produce_batch st ps in
+      ({| core := st1; created_stat := created_stat a + (next_sid st1 - next_sid st) |}, Some o)
+  end.
+
+Fixpoint arun (from_stat : bool) (a : astate) (h : list call) : astate * list (N * list (N * N)) :=
+  match h with
+  | [] => (a, [])
+  | c :: tl =>
+      let '(a1, o) := acall from_stat a c in
+      let '(a2, os) := arun from_stat a1 tl in
+      (a2, match o with Some x => x :: os | None => os end)
+  end.
+
+Fixpoint batches_of (h : list call) : list (list (N * N)) :=
+  match h with [] => [] | Batch ps :: tl => ps :: batches_of tl | ResetStats :: tl => batches_of tl end.
+
+(* statistics reads are invisible: for every history of calls the emitted batches (ids, schema ids, types) are those of
+   the same history without the reads *)
+Lemma resets_invisible_from : forall h a,
+  snd (arun false a h) = snd (prun (core a) (batches_of h)) /\ core (fst (arun false a h)) = fst (prun (core a) (batches_of h)).
+Proof.
+  induction h as [|c tl IH]; intros a; cbn [arun batches_of prun].
+  - split; reflexivity.
+  - destruct c as [ps|]; cbn [acall batches_of prun].
+    + destruct (produce_batch (core a) ps) as [st1 o] eqn:E.
+      specialize (IH {| core := st1; created_stat := created_stat a + (next_sid st1 - next_sid (core a)) |}).
+      cbn [core] in IH. destruct (arun false _ tl) as [a2 os] eqn:E2. destruct (prun st1 (batches_of tl)) as [s2 os2] eqn:E3.
+      cbn [fst snd] in *. destruct IH as [-> ->]. split; reflexivity.
+    + specialize (IH {| core := core a; created_stat := 0 |}). cbn [core] in IH.
+      destruct (arun false _ tl) as [a2 os] eqn:E2. cbn [fst snd] in *. exact IH.
+Qed.
+
+Theorem resets_invisible : forall h, snd (arun false ainit h) = snd (prun pinit (batches_of h)).
+Proof. intros h. apply (resets_invisible_from h ainit). Qed.
+
+(* ids allocated from the statistic: after a read the next new stream gets an id that is already in use *)
+Example ids_from_statistic_refuted :
+  snd (arun true ainit [Batch [(40, 1)]; ResetStats; Batch [(40, 3)]]) = [(0, [(0, 40)]); (1, [(0, 40)])] /\
+  snd (arun false ainit [Batch [(40, 1)]; ResetStats; Batch [(40, 3)]]) = [(0, [(0, 40)]); (1, [(1, 40)])].
+Proof. split; vm_compute; reflexivity. Qed.
